@@ -530,31 +530,37 @@ func translate(ctx *context, args []Datum) (retLit Datum) {
 	from := args[1].Literal("translate()")
 	to := args[2].Literal("translate()")
 
-	if len(src) == 0 || len(from) == 0 {
-		return NewLiteralDatum(src)
+	// Map each character of 'from' to the character at the same position
+	// in 'to' (or to removal); the first occurrence in 'from' wins.  The
+	// mapping is applied once to each character of 'src', so translated
+	// characters are never translated again.
+	toRunes := []rune(to)
+	mapping := make(map[rune]rune)
+	remove := make(map[rune]bool)
+	pos := 0
+	for _, fromChar := range from {
+		if _, present := mapping[fromChar]; !present && !remove[fromChar] {
+			if pos < len(toRunes) {
+				mapping[fromChar] = toRunes[pos]
+			} else {
+				remove[fromChar] = true
+			}
+		}
+		pos++
 	}
 
-	var toChar string
-	var alreadyTranslated = make(map[string]bool)
-	for index, fromChar := range from {
-		// Ensure we don't translate twice.
-		if _, present := alreadyTranslated[string(fromChar)]; present {
+	var b strings.Builder
+	for _, c := range src {
+		if remove[c] {
 			continue
 		}
-		alreadyTranslated[string(fromChar)] = true
-
-		// Work out required replacement / removal
-		if index < len(to) {
-			toChar = to[index : index+1]
-		} else {
-			toChar = ""
+		if r, present := mapping[c]; present {
+			c = r
 		}
-
-		src = strings.Replace(src, string(fromChar), toChar,
-			-1 /* replace all */)
+		b.WriteRune(c)
 	}
 
-	return NewLiteralDatum(src)
+	return NewLiteralDatum(b.String())
 }
 
 func xBoolean(ctx *context, args []Datum) Datum {
